@@ -25,7 +25,8 @@ def obligations(tier):
     obs.append(seq_ob('lifecycle', 2, 3, 8, 'register, defer, {barrier | barrier_thread | nothing}, unregister, register again, defer x2, unregister',
                       ['rcu_defer_barrier() before the first unregister']))
     from props.common import conc
-    obs += conc('defer_barrier_vs_queuer', 'c13_defer_conc.c', [dict(fn='ta', slot=1), 'tb', 'r1', 'r2'], 3,
+    if not q:          # ~20 min / 8 GB: thorough tier only
+      obs += conc('defer_barrier_vs_queuer', 'c13_defer_conc.c', [dict(fn='ta', slot=1), 'tb', 'r1', 'r2'], 3,
                 cflags=['-DURCU_VERIF_DEFER_QUEUE_SIZE=8'], pre=[('pro', 1)], post=[('epi', 1)], unwind=4, live=True,
                 desc='queuing thread (2 defer_rcu) vs rcu_defer_barrier() (= what the background reclaimer runs) vs two readers: a call runs once, in order, '
                      'only after the reader sections open at its defer_rcu have ended; everybody finishes',
